@@ -1,7 +1,7 @@
 (** C07 — Pausing, resuming and cancelling events preserves remaining delays.
     Statements only; proofs are [exact] of lemmas in Proofs/EnvPause.v. *)
 From Coq Require Import ZArith List Bool Lia Sorting.Sorted Sorting.Permutation.
-From SimVerif Require Import Model.Base Model.Env Proofs.EnvInv Proofs.EnvPause.
+From SimVerif Require Import Model.Base Model.Env Proofs.EnvInv Proofs.EnvPause Proofs.EnvRem.
 Import ListNotations.
 Open Scope Z_scope.
 
@@ -95,6 +95,27 @@ Section C07.
     schedule wsrc (cancel en a) t p a' act = Ok en' ->
     exists e, In e (queue en') /\ e_time e = t /\ e_asset e = a' /\ e_cancelled e = false /\ e_act e = act.
   Proof. exact (schedule_after_cancel A wsrc). Qed.
+  (** * remaining delays over whole steps, whatever the actions do.  [Rem en i r]: event number i is live (pending or paused, not
+      cancelled) with remaining delay r — its time minus the clock while pending, its time minus the instant of the pause while
+      paused.  One step takes exactly the elapsed time off every event that was pending and nothing off an event that was paused;
+      pause and unpause never change a remaining delay; an event is dispatched when its delay is used up. *)
+  Theorem C07_step_pending_event_loses_elapsed_time : forall w (en : env A) e0 q w' en' e,
+    queue en = e0 :: q -> step wsrc exec wfail (w, en) = Some (Ok (w', en')) ->
+    In e q -> e_cancelled e = false ->
+    Rem A en' (e_id e) ((e_time e - now en) - (now en' - now en)) \/ Cancelled A en' (e_id e).
+  Proof. exact (step_pending A W wsrc exec wfail). Qed.
+  Theorem C07_step_paused_event_loses_nothing : forall w (en : env A) w' en' e p,
+    step wsrc exec wfail (w, en) = Some (Ok (w', en')) ->
+    In e (paused en) -> e_cancelled e = false -> e_paused_at e = Some p ->
+    Rem A en' (e_id e) (e_time e - p) \/ Cancelled A en' (e_id e).
+  Proof. exact (step_paused A W wsrc exec wfail). Qed.
+  Theorem C07_dispatched_when_due : forall w (en : env A) e0 q w' en',
+    queue en = e0 :: q -> step wsrc exec wfail (w, en) = Some (Ok (w', en')) -> now en' = e_time e0.
+  Proof. exact (step_dispatch_time A W wsrc exec wfail). Qed.
+  Theorem C07_pause_keeps_remaining_delay : forall (en : env A) a i r, Rem A en i r -> Rem A (pause en a) i r.
+  Proof. exact (pause_rem A). Qed.
+  Theorem C07_unpause_keeps_remaining_delay : forall (en : env A) a i r, Rem A en i r -> Rem A (unpause en a) i r.
+  Proof. exact (unpause_rem A). Qed.
 End C07.
 
 Print Assumptions C07_pause_spec.
@@ -111,6 +132,11 @@ Print Assumptions C07_cancelled_dispatch_is_noop.
 Print Assumptions C07_cancelled_never_runs.
 Print Assumptions C07_schedule_after_pause.
 Print Assumptions C07_schedule_after_cancel.
+Print Assumptions C07_step_pending_event_loses_elapsed_time.
+Print Assumptions C07_step_paused_event_loses_nothing.
+Print Assumptions C07_dispatched_when_due.
+Print Assumptions C07_pause_keeps_remaining_delay.
+Print Assumptions C07_unpause_keeps_remaining_delay.
 
 (** Non-vacuity: pause at time 8, resume at 24: the event due at 16 comes back at 32. *)
 From SimVerif Require Import Model.FamEnv.
